@@ -1,4 +1,234 @@
-(* Property C02 - tag arguments reach Python with exactly the values they denote.  Statements only. *)
-From DJC Require Import Lib.Base TagParse.Model TagParse.Resolve.
-Theorem placeholder_true : True. Proof. exact I. Qed.
-Print Assumptions placeholder_true.
+(* Property C02 - tag arguments reach Python with exactly the values they denote.  Statements only.
+
+   M-model (transliteration of the code): TagParse/Model.v (parse_tag) + TagParse/Resolve.v (TagValue.compile leaf
+   text, TagValueStruct.resolve, parse_template_tag / _extract_flags / self-closing slash, resolve_params,
+   process_aggregate_kwargs, special kwargs + binding of node.wrapper_render).
+   S-model (specification): TagParse/Spec.v - the documented grammar `arglist`, the printer `print lay tag a` in
+   which the layout `lay` chooses every insignificant white-space run / line break / trailing comma, and the
+   denotation `denote`.  Leaf evaluation (Django FilterExpression / DynamicFilterExpression) is the abstract
+   Section variable `eval_leaf` below; every theorem holds for every evaluator.
+   Proofs: TagParse/ScanLemmas.v, ParseProofs.v, ResolveProofs.v, BindProofs.v. *)
+From DJC Require Import Lib.Base TagParse.Model TagParse.Proofs TagParse.Resolve TagParse.Spec TagParse.ScanLemmas
+     TagParse.ParseProofs TagParse.ResolveProofs TagParse.BindProofs TagParse.InvalidProofs Gen.C12.
+Import Coq.Strings.String.StringSyntax.
+Delimit Scope string_scope with string.
+
+(* ---- anchors: the scanner constants the model was written for are those of the source ---- *)
+Example c02_tag_whitespace_anchor : Gen.C12.tag_whitespace = WS. Proof. reflexivity. Qed.
+Example c02_tag_filter_anchor : Gen.C12.tag_filter = FILTER. Proof. reflexivity. Qed.
+Example c02_tag_spread_anchor : Gen.C12.tag_spread = SPREAD. Proof. reflexivity. Qed.
+Example c02_max_nesting_depth_anchor : Gen.C12.max_nesting_depth = N.of_nat MAX_NESTING_DEPTH. Proof. reflexivity. Qed.
+
+Section C02.
+  Variable ctxT : Type.                                   (* render contexts *)
+  Variable eval_leaf : str -> ctxT -> rres value.         (* canonical leaf text -> context -> value (Django) *)
+  Variable keywords : list str.                           (* keyword.kwlist *)
+
+  (* parse_print_denote - correctness and layout-invariance in one statement, FULL grammar (lists and dicts nested
+     to the depth the parser accepts, spreads at every level, filters with arguments, translations, quoted strings
+     with any content, special-character and aggregate keys, flags, self-closing slash): whatever the layout, the
+     whole path  parse_tag -> flags / slash -> resolve -> aggregate -> bind  hands the receiver the denotation. *)
+  Theorem parse_print_denote : forall (lay : layout) (tag : str) (allowed : list str) (a : arglist) (ctx : ctxT),
+    arglist_ok tag allowed a = true ->
+    run_tag keywords tag allowed (fun t => eval_leaf t ctx) (print lay tag a)
+    = denote keywords (fun t => eval_leaf t ctx) a.
+  Proof. intros lay tag allowed a ctx. exact (run_tag_print_denote keywords tag allowed (fun t => eval_leaf t ctx) lay a). Qed.
+
+  (* two renderings of one argument list - any white space, line breaks, trailing commas - give the same result *)
+  Theorem layout_invariant : forall (lay lay' : layout) (tag : str) (allowed : list str) (a : arglist) (ctx : ctxT),
+    arglist_ok tag allowed a = true ->
+    run_tag keywords tag allowed (fun t => eval_leaf t ctx) (print lay tag a)
+    = run_tag keywords tag allowed (fun t => eval_leaf t ctx) (print lay' tag a).
+  Proof. intros lay lay' tag allowed a ctx. exact (layout_invariance keywords tag allowed (fun t => eval_leaf t ctx) lay lay' a). Qed.
+
+  (* the self-closing slash only sets the self-closing bit: args, kwargs and flags are those of the tag without it *)
+  Theorem self_closing_slash_invariant : forall (lay lay' : layout) (tag : str) (allowed : list str) (items : list item) (ctx : ctxT),
+    arglist_ok tag allowed (mkarglist items true) = true ->
+    drop_closed (run_tag keywords tag allowed (fun t => eval_leaf t ctx) (print lay tag (mkarglist items true)))
+    = drop_closed (run_tag keywords tag allowed (fun t => eval_leaf t ctx) (print lay' tag (mkarglist items false))).
+  Proof. intros lay lay' tag allowed items ctx. exact (slash_invariance keywords tag allowed (fun t => eval_leaf t ctx) lay lay' items). Qed.
+
+  (* quote style: given that the evaluator does not distinguish 'abc' from "abc" (body without quote / backslash; a fact
+     about Django's FilterExpression, tested on every run by the harness, hypothesis here), the argument list written with
+     the other quote style - in any layout - gives the same result *)
+  Theorem quote_style_invariant : forall (lay lay' : layout) (tag : str) (allowed : list str) (a : arglist) (ctx : ctxT),
+    (forall l, eval_leaf (canon_leaf (swap_leaf l)) ctx = eval_leaf (canon_leaf l) ctx) ->
+    arglist_ok tag allowed a = true -> arglist_ok tag allowed (swap_quotes a) = true ->
+    run_tag keywords tag allowed (fun t => eval_leaf t ctx) (print lay tag (swap_quotes a))
+    = run_tag keywords tag allowed (fun t => eval_leaf t ctx) (print lay' tag a).
+  Proof. intros lay lay' tag allowed a ctx. exact (quote_style_invariance keywords tag allowed (fun t => eval_leaf t ctx) lay lay' a). Qed.
+
+  (* special_char_keys_passthrough (binding stage): positional values, then keyword parameters with pairwise distinct
+     non-aggregate names of ANY characters: args = the positional values, kwargs = every name with exactly its
+     value (identifier names first, then the others such as data-id / @click.stop / #x / class) *)
+  Theorem special_char_keys_passthrough : forall (pos : list value) (kws : list (str * value)),
+    forallb (fun kv : str * value => negb (is_aggregate_key (fst kv))) kws = true -> nodup_str (map fst kws) = true ->
+    bind_params keywords (map posparam pos ++ map kwparam kws)
+    = ROk (pos, map kwpair (filter (regular keywords) kws) ++ map kwpair (filter (special keywords) kws)).
+  Proof. exact (keys_passthrough keywords). Qed.
+End C02.
+Print Assumptions parse_print_denote.
+Print Assumptions layout_invariant.
+Print Assumptions self_closing_slash_invariant.
+Print Assumptions quote_style_invariant.
+Print Assumptions special_char_keys_passthrough.
+
+(* the AST level: parse_tag on the printed text returns the text itself as `normalized` and exactly the attributes of
+   the argument list (tag name, arguments with their keys and the AST of their values, the slash) *)
+Theorem parse_builds_the_ast : forall (allowed : list str) (lay : layout) (tag : str) (a : arglist),
+  arglist_ok tag allowed a = true ->
+  exists attrs, parse_tag (print lay tag a) = Ok (print lay tag a, attrs)
+                /\ map kv attrs = (None, tok_node tag) :: map item_kv (items_with_slash a).
+Proof. exact parse_tag_print. Qed.
+Print Assumptions parse_builds_the_ast.
+
+(* special_char_keys_passthrough (parser stage) is part of parse_builds_the_ast: the key of `k=v` is the string k
+   itself for every k accepted by key_ok - e.g. the documented  # @ . - _  characters and the aggregate colon *)
+Example special_keys_are_keys :
+  forallb key_ok (map s2n ["data-id"; "@click.stop"; "#id"; "x.y"; "_p"; "v-on:click"; "attrs:class"; "hx-get"; "class"]%string) = true.
+Proof. reflexivity. Qed.
+
+(* leaf_text_canonical: the text handed to the evaluator for a leaf is the leaf written without any insignificant
+   white space (none around | and :, none inside _( )), for every layout of the source - so "means what it means
+   inside {{ }}" is Django's evaluator applied to the expression itself *)
+Theorem leaf_text_canonical : forall (allowed : list str) (lay : layout) (tag : str) (l : leaf),
+  arglist_ok tag allowed (mkarglist [IPos (SLeaf l)] false) = true ->
+  exists n ta a parts,
+    parse_tag (print lay tag (mkarglist [IPos (SLeaf l)] false)) = Ok (n, [ta; a])
+    /\ a_value a = NStruct TSimple None [NVal parts] None
+    /\ leaf_text parts = print_leaf canonical_layout l.
+Proof. exact leaf_text_canonical_lemma. Qed.
+Print Assumptions leaf_text_canonical.
+
+(* resolving the AST of a value gives its denotation (Python list / dict / spread semantics), any nesting *)
+Theorem resolve_is_denotation : forall (ev : str -> rres value) (sp : option spread) (v : sval),
+  val_ok v = true -> sp_ok sp v -> resolve_node ev (top_ast sp v) = den_val ev v.
+Proof. intros ev sp v. exact (resolve_top ev sp v). Qed.
+Print Assumptions resolve_is_denotation.
+
+(* aggregate_semantics *)
+Theorem aggregate_semantics : forall ps : list (option str * value),
+  process_aggregate_kwargs ps
+  = if existsb (fun od => str_in (fst od) (plain_keys ps)) (agg_dicts ps) then RErr ETemplateSyntax
+    else ROk (filter is_plain ps ++ map (fun od => (Some (fst od), VDict (snd od))) (agg_dicts ps)).
+Proof. exact aggregate_result. Qed.
+Print Assumptions aggregate_semantics.
+
+Theorem aggregate_last_value_wins : forall (ps : list (option str * value)) (o i : str) (v : value),
+  o <> [] -> existsb (N.eqb cCOLON) o = false ->
+  agg_get o i (agg_dicts (ps ++ [(Some (o ++ cCOLON :: i), v)])) = Some v
+  /\ forall o2 i2, str_eqb o2 o && str_eqb i2 i = false ->
+       agg_get o2 i2 (agg_dicts (ps ++ [(Some (o ++ cCOLON :: i), v)])) = agg_get o2 i2 (agg_dicts ps).
+Proof. exact aggregate_last_wins. Qed.
+Print Assumptions aggregate_last_value_wins.
+
+(* the pre-check _check_kwargs_for_agg_conflict can never raise (it compares whole keys of two disjoint kinds);
+   the conflict "attrs=... together with attrs:x=..." is caught by the outer-key test of aggregate_semantics *)
+Theorem agg_precheck_never_fires : forall ps : list (option str * value), agg_conflict ps [] [] = false.
+Proof. exact agg_conflict_never. Qed.
+Print Assumptions agg_precheck_never_fires.
+
+(* invalid_spreads_rejected.  After ANY valid arguments in ANY layout, an argument (with or without `key=`) that opens
+   lists and possibly a dict - each followed by any white space - and then carries a spread operator that is wrong
+   for the innermost container is refused, WHATEVER FOLLOWS (b is only constrained by bad_spread, which looks at its
+   first three characters):   `...` anywhere but at the top level, `...` after `key=`, `**` outside a dict, `*`
+   outside a list.  Documented instances:  attr=[...val]  attr={...val}  attr=[**val]  attr={*val}  key=...attrs
+   attr={...attrs: "value"} *)
+Theorem invalid_spreads_rejected :
+  forall (allowed : list str) (lay : layout) (tag : str) (items : list item) (w1 : str) (kopt : option str)
+         (os : list str) (last : option str) (b : str),
+  tok_ok tag = true -> forallb tok_ok allowed = true -> forallb (item_ok allowed) items = true ->
+  forallb is_ws w1 = true -> w1 <> [] ->
+  match kopt with Some k => key_ok k = true | None => True end ->
+  length os + (if last then 1 else 0) <= 99 ->
+  bad_spread (inner_ty os last) kopt b = true ->
+  parse_tag (tag ++ print_items lay items ++ w1
+             ++ match kopt with Some k => k ++ [61%N] | None => [] end ++ (opens_text os ++ last_text last) ++ b)
+  = Err TemplateSyntaxError.
+Proof. exact invalid_spread_rejected. Qed.
+Print Assumptions invalid_spreads_rejected.
+
+(* ... in the VALUE position of a dict:  attr={"key": ...val}  attr=[{k: *x *)
+Theorem invalid_spread_in_dict_value_rejected :
+  forall (allowed : list str) (lay : layout) (tag : str) (items : list item) (w1 : str) (kopt : option str)
+         (os : list str) (klay : layout) (w w7 w8 : str) (kl : leaf) (b : str),
+  tok_ok tag = true -> forallb tok_ok allowed = true -> forallb (item_ok allowed) items = true ->
+  forallb is_ws w1 = true -> w1 <> [] ->
+  match kopt with Some k => key_ok k = true | None => True end ->
+  length os <= 98 -> leaf_ok kl = true -> no_args kl = true ->
+  bad_spread TDict kopt b = true ->
+  parse_tag (tag ++ print_items lay items ++ w1
+             ++ match kopt with Some k => k ++ [61%N] | None => [] end ++ (opens_text os ++ dkey_text klay w w7 w8 kl) ++ b)
+  = Err TemplateSyntaxError.
+Proof. exact invalid_spread_in_dict_value. Qed.
+Print Assumptions invalid_spread_in_dict_value_rejected.
+
+(* ... inside a filter:  attr=val|...filter   val | *x *)
+Theorem invalid_spread_in_filter_rejected :
+  forall (allowed : list str) (lay : layout) (tag : str) (items : list item) (w1 : str) (kopt : option str)
+         (t wa wb b : str),
+  tok_ok tag = true -> forallb tok_ok allowed = true -> forallb (item_ok allowed) items = true ->
+  forallb is_ws w1 = true -> w1 <> [] ->
+  match kopt with Some k => key_ok k = true | None => True end ->
+  tok_ok t = true -> forallb is_ws wa = true -> forallb is_ws wb = true -> spread_start b = true ->
+  parse_tag (tag ++ print_items lay items ++ w1
+             ++ match kopt with Some k => k ++ [61%N] | None => [] end ++ t ++ wa ++ 124%N :: wb ++ b)
+  = Err TemplateSyntaxError.
+Proof. exact invalid_spread_in_filter. Qed.
+Print Assumptions invalid_spread_in_filter_rejected.
+
+(* the step-level fact behind them: in ANY state of the container stack (any frames, any entries so far) a spread
+   operator that is wrong for the innermost frame makes the next step fail *)
+Theorem wrong_spread_step_fails : forall (key : option str) (c0 : cur) (T : frame) (below : list frame) (tot : option frame),
+  bad_spread (f_ty T) key (rest (skip_ws c0)) = true -> stack_step key c0 T below tot = SErr TemplateSyntaxError.
+Proof. exact stack_step_bad. Qed.
+Print Assumptions wrong_spread_step_fails.
+
+(* the documented examples are instances (premises satisfiable), and so are the remaining documented forms *)
+Example invalid_documented_examples :
+  forallb (fun s => match parse_tag (s2n s) with Err TemplateSyntaxError => true | _ => false end)
+    ["c attr=[...val]"; "c attr={...val}"; "c attr=[**val]"; "c attr={*val}"; "c key=...attrs"; "c attr={...attrs: ""value""}";
+     "c attr={""key"": ...val}"; "c attr=val|...filter"; "c x=1 attr=[ [ { *val } ] ] y=2"; "c attr={**attrs: 1}";
+     "c attr={""key"": **val}"]%string = true.
+Proof. vm_compute. reflexivity. Qed.
+Example invalid_premises_satisfiable :
+  bad_spread (inner_ty [[32%N]] None) (Some (s2n "attr"%string)) (s2n "...val] rest"%string) = true
+  /\ bad_spread (inner_ty [] (Some [])) None (s2n "*val}"%string) = true
+  /\ bad_spread (inner_ty [] None) (Some (s2n "key"%string)) (s2n "...attrs"%string) = true
+  /\ spread_start (s2n "...filter"%string) = true.
+Proof. repeat split; reflexivity. Qed.
+
+(* ---- non-vacuity: a well-formed argument list with everything in it, one of its renderings, its meaning ---- *)
+Definition ex_tok (s : String.string) : leaf := mkleaf (AVar (s2n s)) [].
+Definition ex_items : list item :=
+  [ IPos (SLeaf (mkleaf (AVar (s2n "x"%string)) [(s2n "upper"%string, None)]));
+    IKw (s2n "data-id"%string)
+        (SList [(false, SLeaf (ex_tok "1"%string));
+                (true, SLeaf (ex_tok "l"%string));
+                (false, SDict [(Some (mkleaf (AStr 39 (s2n "k"%string)) []),
+                                SLeaf (mkleaf (AVar (s2n "i"%string)) [(s2n "add"%string, Some (AVar (s2n "1"%string)))]));
+                               (None, SLeaf (ex_tok "d"%string))])]);
+    IKw (s2n "attrs:class"%string) (SLeaf (mkleaf (AStr 34 (s2n "it's {{ y }}"%string)) []));
+    IKw (s2n "attrs:@click.stop"%string) (SLeaf (mkleaf (ATrans 34 (s2n "go"%string)) []));
+    ISpread (SLeaf (ex_tok "d"%string));
+    IFlag (s2n "only"%string) ].
+Definition ex_arglist : arglist := mkarglist ex_items true.
+Definition ex_allowed : list str := [s2n "only"%string; s2n "required"%string].
+Example ex_arglist_ok : arglist_ok (s2n "c02probe"%string) ex_allowed ex_arglist = true.
+Proof. reflexivity. Qed.
+(* a layout that puts a newline and a space at every optional position and writes every optional comma *)
+Definition ex_layout : layout := fun _ => [10; 32; 120]%N.
+Example ex_printed_canonical :
+  print canonical_layout (s2n "c02probe"%string) ex_arglist
+  = s2n "c02probe x|upper data-id=[1,*l,{'k':i|add:1,**d}] attrs:class=""it's {{ y }}"" attrs:@click.stop=_(""go"") ...d only /"%string.
+Proof. reflexivity. Qed.
+Example ex_printed_other_layout_differs :
+  str_eqb (print ex_layout (s2n "c02probe"%string) ex_arglist) (print canonical_layout (s2n "c02probe"%string) ex_arglist) = false.
+Proof. reflexivity. Qed.
+
+Example ex_swapped_ok : arglist_ok (s2n "c02probe"%string) ex_allowed (swap_quotes ex_arglist) = true.
+Proof. reflexivity. Qed.
+Example ex_swapped_differs :
+  print canonical_layout (s2n "c02probe"%string) (swap_quotes ex_arglist)
+  = s2n "c02probe x|upper data-id=[1,*l,{""k"":i|add:1,**d}] attrs:class=""it's {{ y }}"" attrs:@click.stop=_('go') ...d only /"%string.
+Proof. reflexivity. Qed.
